@@ -1,10 +1,12 @@
 use crate::util::Args;
 pub mod c01;
+pub mod c05;
 pub mod c06;
 pub mod c08;
 pub mod c09;
 pub mod c10;
 pub mod c12;
+pub mod c17;
 pub mod c19;
 pub mod chist;
 pub mod smoke;
@@ -19,11 +21,13 @@ pub fn dispatch(a: &Args) {
 		"c15r" => chist::run_restore(a),
 		"c12h" => chist::run(a, "C12"),
 		"c01" => c01::run(a),
+		"c05" => c05::run(a),
 		"c06" => c06::run(a),
 		"c06child" => c06::child(a),
 		"c08" => c08::run(a),
 		"c09" => c09::run(a),
 		"c10" => c10::run(a),
+		"c17" => c17::run(a),
 		"c12s" => c12::run(a),
 		"c12child" => c12::child(a),
 		p => {
